@@ -143,6 +143,13 @@ class FoldInterp:
         if isinstance(e, ast.UnaryOp) and isinstance(e.op, ast.USub):
             v = self.ev(e.operand)
             return self.scale(v, F(-1))
+        if isinstance(e, ast.BinOp) and isinstance(e.op, (ast.BitOr, ast.BitAnd, ast.BitXor)):
+            # element-wise boolean operators on masks: the same as numpy.logical_or / _and / _xor
+            a, b = self.ev(e.left), self.ev(e.right)
+            if not (isinstance(a, Boo) and isinstance(b, Boo)):
+                raise AnalysisError('%s: unsupported arithmetic %s' % (self.fn.name, ast.unparse(e)))
+            f = {ast.BitOr: lambda x, y: x or y, ast.BitAnd: lambda x, y: x and y, ast.BitXor: lambda x, y: x != y}[type(e.op)]
+            return Boo({cl: tuple(f(x, y) for x, y in zip(a.d[cl], b.d[cl])) for cl in CLASSES})
         if isinstance(e, ast.BinOp):
             l, r = self.ev(e.left), self.ev(e.right)
             if isinstance(e.op, ast.Add):
@@ -179,6 +186,9 @@ class FoldInterp:
             l, r = canon_names(e.left), canon_names(e.comparators[0])
             op = type(e.ops[0]).__name__
             flip = {'Lt': 'Gt', 'Gt': 'Lt', 'LtE': 'GtE', 'GtE': 'LtE', 'Eq': 'Eq', 'NotEq': 'NotEq'}
+            general = self.class_table(canon_names(e.left), op, canon_names(e.comparators[0]))
+            if general is not None:
+                return Boo({c: (c in general,) * 4 for c in CLASSES})
             if r == 'total_per_entry':
                 l, r, op = r, l, flip[op]
             if l == 'total_per_entry' and r in ('total_samples/2', 'total_samples/2.0', '0.5*total_samples', 'total_samples*0.5'):
@@ -219,6 +229,46 @@ class FoldInterp:
                 return ('ctor', e)
             raise AnalysisError('%s: unsupported call %s' % (self.fn.name, ast.unparse(e)[:60]))
         raise AnalysisError('%s: unsupported expression %s' % (self.fn.name, ast.unparse(e)[:60]))
+
+    def class_table(self, ltxt, op, rtxt):
+        """which cell classes (K: total below half, A: exactly half, O: above half) a comparison of integer arithmetic in
+        total_per_entry and total_samples selects: evaluated for every total 0..T and T = 2..13; None when the expressions are
+        not such arithmetic; an error when the answer is not uniform on a class (parity-dependent predicate)"""
+        import operator as _op
+        ops = {'Lt': _op.lt, 'LtE': _op.le, 'Eq': _op.eq, 'NotEq': _op.ne, 'GtE': _op.ge, 'Gt': _op.gt}
+        if op not in ops:
+            return None
+
+        def compile_(txt):
+            try:
+                tree = ast.parse(txt, mode='eval').body
+            except SyntaxError:
+                return None
+            for n in ast.walk(tree):
+                if isinstance(n, ast.Name) and n.id not in ('total_per_entry', 'total_samples', 'int'):
+                    return None
+                if isinstance(n, ast.Call) and not (isinstance(n.func, ast.Name) and n.func.id == 'int' and len(n.args) == 1 and not n.keywords):
+                    return None
+                if not isinstance(n, (ast.Expression, ast.BinOp, ast.UnaryOp, ast.Constant, ast.Name, ast.Call, ast.Load, ast.Add, ast.Sub, ast.Mult, ast.Div, ast.FloorDiv, ast.USub, ast.Mod)):
+                    return None
+                if isinstance(n, ast.Constant) and not isinstance(n.value, (int, float)):
+                    return None
+            code = compile(ast.Expression(body=tree), '<predicate>', 'eval')
+            return lambda t, T: eval(code, {'__builtins__': {}}, {'total_per_entry': t, 'total_samples': T, 'int': int})
+        fl, fr = compile_(ltxt), compile_(rtxt)
+        if fl is None or fr is None:
+            return None
+        sel = {'K': set(), 'A': set(), 'O': set()}
+        for T in range(2, 14):
+            for t in range(0, T + 1):
+                cls = 'K' if 2 * t < T else 'A' if 2 * t == T else 'O'
+                try:
+                    sel[cls].add(bool(ops[op](fl(t, T), fr(t, T))))
+                except ZeroDivisionError:
+                    return None
+        if any(len(v) > 1 for v in sel.values()):
+            raise AnalysisError('%s: comparison %s %s %s selects different cells for even and odd totals' % (self.fn.name, ltxt, op, rtxt))
+        return ''.join(c for c in 'KAO' if sel[c] == {True})
 
     def scale(self, v, k):
         if isinstance(v, Lin):
@@ -276,7 +326,7 @@ class FoldInterp:
                     if isinstance(st.value, ast.Constant) and st.value.value is None:
                         self.env[t.id] = None
                         continue
-                    if t.id in ('total_samples', 'total_per_entry') or '_total_per_entry()' in vt or vt.replace(' ', '') in ('numpy.sum(self.sample_sizes)', 'self.sample_sizes.sum()'):
+                    if (t.id in ('total_samples', 'total_per_entry') and not isinstance(st.value, ast.Compare)) or vt.replace(' ', '') in ('self._total_per_entry()', 'numpy.sum(self.sample_sizes)', 'self.sample_sizes.sum()'):
                         self.env[t.id] = ('scalar', vt)
                         continue
                     if isinstance(st.value, ast.Name) and isinstance(self.env.get(st.value.id), tuple) and self.env[st.value.id][0] == 'scalar':
@@ -386,9 +436,25 @@ def check_fold_unfold(rep, prog, m):
     okt = 'numpy.sum(self._counts_per_entry(), axis=-1)' in ast.unparse(tp) and 'numpy.indices(self.shape)' in ast.unparse(cp) and 'ind.transpose(list(range(1, self.Npop + 1)) + [0])' in ast.unparse(cp)
     rep.ob('R-IDX', '_total_per_entry', okt, 'sum over populations of the index of each entry', rel, tp.lineno, what='total = i_1 + ... + i_P')
     ra = prog.func(NUM, 'reverse_array')
-    body = [ast.unparse(s) for s in ra.body if not (isinstance(s, ast.Expr) and isinstance(s.value, ast.Constant))]
-    okr = body == ['reverse_slice = tuple((slice(None, None, -1) for ii in arr.shape))', 'return arr[reverse_slice]']
-    rep.ob('R-TPL', 'Numerics.reverse_array', okr, '; '.join(body), prog.mod(NUM).rel, ra.lineno, what='every axis is reversed')
+    # for 1..4-dimensional arrays the result is arr[::-1, ::-1, ...] (abstract execution: the index tuple is compared as a value)
+    from sa import miniexec as _mx
+    okr, det_r = True, []
+    for D in (1, 2, 3, 4):
+        it_ = _mx.Interp(prog, prog.mod(NUM))
+        try:
+            paths_ = it_.run(ra, {'arr': _mx.Sym('arr', attrs={'shape': _mx.Sym('arr.shape', length=D), 'ndim': D})})
+        except _mx.Undecidable as e:
+            raise AnalysisError('reverse_array is not recognised: %s' % e)
+        for outcome, events, dec in paths_:
+            v = outcome[1] if outcome[0] == 'return' else None
+            st_ = v.struct if isinstance(v, _mx.Sym) else None
+            key = st_[2] if st_ and st_[0] == 'index' and _mx.show(st_[1]) == 'arr' else None
+            key = key if isinstance(key, tuple) else (key,)
+            if not (len(key) == D and all(isinstance(k_, slice) and k_.start is None and k_.stop is None and k_.step == -1 for k_ in key)):
+                okr = False
+                det_r.append('%d-D: returns %s' % (D, _mx.show(v)[:60] if v is not None else outcome))
+    rep.ob('R-TPL', 'Numerics.reverse_array', okr, '; '.join(det_r[:2]) if det_r else 'returns arr indexed by slice(None, None, -1) on every axis (1..4 dimensions executed abstractly)', prog.mod(NUM).rel, ra.lineno,
+           what='every axis is reversed')
 
 
 def check_misid(rep, prog):
@@ -402,9 +468,30 @@ def check_misid(rep, prog):
         ok = False
     rep.ob('R-ALG', 'apply_anc_state_misid', ok, '(1 - p)*fs + p*reverse_array(fs)', nm.rel, fn.lineno, what='convex mix with coefficients summing to one')
     mk = prog.func(NUM, 'make_anc_state_misid_func.misid_func')
-    txt = ast.unparse(mk)
-    okm = 'p_misid = all_params[-1]' in txt and 'args[0] = all_params[:-1]' in txt and 'return apply_anc_state_misid(fs, p_misid)' in txt and 'fs = func(*args, **kwargs)' in txt
-    rep.ob('R-IDX', 'make_anc_state_misid_func', okm, 'last parameter is the misidentification probability; the model receives the others', nm.rel, mk.lineno, what='parameter plumbing of the misidentification wrapper')
+    outer_mk = prog.func(NUM, 'make_anc_state_misid_func')
+    # the wrapper called with (params, ns, pts): the model receives params[:-1] and the other arguments unchanged, and the result is
+    # apply_anc_state_misid(model result, params[-1])
+    from sa import miniexec as _mx2
+    okm, det_m = True, ''
+    try:
+        it_ = _mx2.Interp(prog, nm)
+
+        def thunk():
+            w = it_.call_function(outer_mk, it_.bind(outer_mk, [_mx2.Sym('func', truth=True)], {}))
+            return it_.apply(w, [_mx2.Sym('all_params'), _mx2.Sym('ns'), _mx2.Sym('pts')], {'k': _mx2.Sym('k')})
+        paths_ = it_.run_thunk(thunk, 'make_anc_state_misid_func(func)(params, ns, pts, k=k)')
+        if len(paths_) != 1 or paths_[0][0][0] != 'return':
+            okm, det_m = False, '%d paths' % len(paths_)
+        else:
+            outcome, events, dec = paths_[0]
+            fcalls = [e for e in events if e[0] == 'call' and e[1] == 'func']
+            acalls = [e for e in events if e[0] == 'call' and e[1] == 'apply_anc_state_misid']
+            okm = len(fcalls) == 1 and [_mx2.show(a) for a in fcalls[0][2]] == ['all_params[:-1]', 'ns', 'pts'] and {k_: _mx2.show(v_) for k_, v_ in fcalls[0][3].items()} == {'k': 'k'} and \
+                len(acalls) == 1 and [_mx2.show(a) for a in acalls[0][2]] == ['func(all_params[:-1], ns, pts, k=k)', 'all_params[-1]'] and _mx2.show(outcome[1]).startswith('apply_anc_state_misid(')
+            det_m = 'model called with (%s); mixed by apply_anc_state_misid(%s)' % (', '.join(_mx2.show(a) for a in fcalls[0][2]) if fcalls else '?', ', '.join(_mx2.show(a)[:40] for a in acalls[0][2]) if acalls else '?')
+    except _mx2.Undecidable as e:
+        raise AnalysisError('make_anc_state_misid_func is not recognised: %s' % e)
+    rep.ob('R-IDX', 'make_anc_state_misid_func', okm, 'last parameter is the misidentification probability; the model receives the others' + ('' if okm else ': ' + det_m), nm.rel, mk.lineno, what='parameter plumbing of the misidentification wrapper')
 
 
 def check_operators(rep, prog, m):
@@ -494,8 +581,23 @@ def check_operators(rep, prog, m):
                '%d paths executed abstractly for a masked-array and a plain operand%s' % (n_paths, '' if not problems else ': ' + '; '.join(sorted(set(problems))[:3])), rel, fn.lineno,
                what='generated operator checks folding, unions masks and keeps folding status, labels, extrap_x')
     cf = prog.func(SM, 'Spectrum._check_other_folding')
-    t = ast.unparse(cf)
-    okf = 'isinstance(other, self.__class__) and other.folded != self.folded' in t and any(isinstance(n, ast.Raise) for n in ast.walk(cf))
+    # raises exactly when the operand is a Spectrum (isinstance of self.__class__) whose folding status differs: abstract execution
+    # over (is an instance) x (self folded) x (other folded)
+    okf = True
+    for inst in (False, True):
+        for fs_, fo_ in ((False, False), (False, True), (True, False), (True, True)):
+            def hk(nm_, args_, kw_, inst=inst):
+                if nm_ == 'isinstance' and len(args_) == 2 and mx.show(args_[1]) == 'self.__class__' and mx.show(args_[0]) == 'other':
+                    return inst
+                return NotImplemented
+            it_ = mx.Interp(prog, m, call_hook=hk)
+            try:
+                paths_ = it_.run(cf, {'self': mx.Sym('self', truth=True, attrs={'folded': fs_}), 'other': mx.Sym('other', attrs={'folded': fo_})})
+            except mx.Undecidable as e:
+                raise AnalysisError('_check_other_folding is not recognised: %s' % e)
+            raised = all(o[0][0] == 'raise' for o in paths_)
+            if raised != (inst and fs_ != fo_) or len({o[0][0] for o in paths_}) != 1:
+                okf = False
     rep.ob('R-DOM', 'Spectrum._check_other_folding', okf, 'raises when a folded and an unfolded Spectrum are combined', rel, cf.lineno, what='mixed folding status refused')
     rep.floor('R-EXH', 18)
 
